@@ -202,7 +202,7 @@ class Ctx:
         """make the given .vo targets (paths relative to coq/)."""
         with BuildLock():
             refresh_makefile()
-            rc, out = sh(["make", "-j%d" % NCPU, "-k"] + list(targets), cwd=COQ, timeout=timeout)
+            rc, out = sh(["make", "-j%s" % os.environ.get("VERIF_JOBS", "4"), "-k"] + list(targets), cwd=COQ, timeout=timeout)
         return rc == 0, out
 
     def coqc_file(self, path, timeout=900, cwd=None):
@@ -369,7 +369,7 @@ class Ctx:
             files.append((k, d / (name + ".v")))
         failing = []
         procs = []
-        maxp = max(1, NCPU // 2)
+        maxp = int(os.environ.get("VERIF_JOBS", "4"))
 
         def reap(block_all=False):
             while procs and (block_all or len(procs) >= maxp):
